@@ -84,7 +84,7 @@ fn values_case(rng: &mut Rng, idx: u64, out: &mut Out) {
         }
     }
     let params = gen_params(&cfg, rng, -1.0, 1.0).unwrap();
-    let x = random_input(rng, cfg.input);
+    let x = varied_input(rng, cfg.input);
     let net = match build(&cfg, Some(&params)) {
         Ok(n) => n,
         Err(m) => {
@@ -116,7 +116,7 @@ fn bookkeeping_case(rng: &mut Rng, idx: u64, out: &mut Out) {
     cfg.skipacc = *rng.pick(&[Acc::Add, Acc::Sub, Acc::Mul, Acc::Mean]);
     let cands = candidates(&cfg);
     let params = gen_params(&cfg, rng, -1.0, 1.0).unwrap();
-    let x = random_input(rng, cfg.input);
+    let x = varied_input(rng, cfg.input);
     let mut net = match build(&cfg, Some(&params)) {
         Ok(n) => n,
         Err(m) => {
